@@ -80,6 +80,14 @@ func runC19(c *kit.Ctx) {
 		c.Check(adminClosed, lit, "close-master", lit.Pos(), "the master connection of an admin client is closed", "Close no longer closes the admin client's master connection")
 	}
 
+	if closeFn := p.Func("", "client", "Close"); closeFn != nil {
+		e := mustPass(closeFn, func(x ssa.Instruction) bool {
+			cc, ok := x.(*ssa.Call)
+			return ok && kit.CalleeName(cc) == nmOnceDo
+		}, nil)
+		c.Check(e == nil, closeFn, "close-through-once", closeFn.Pos(), "every Close goes through closeOnce.Do (a second caller waits until the first has finished closing)", "Close can return without going through closeOnce.Do (an 'already closed' fast path): a second, concurrent Close returns while the first is still closing connections - connections are open after Close returned: "+c.BlockPath(e))
+	}
+
 	// ---- R2 ---------------------------------------------------------------
 	c.StartRule("R2", "closeAll closes everything it holds", 3)
 	{
@@ -128,6 +136,7 @@ func runC19(c *kit.Ctx) {
 
 	// ---- R3 ---------------------------------------------------------------
 	c.StartRule("R3", "waits and establishers observe the closed signal", 6)
+	renewerStopsOnError(c)
 	{
 		n := 0
 		kit.Instrs(gr, func(in ssa.Instruction) {
